@@ -111,7 +111,8 @@ def mypy_expression_to_sds_type(expr: mp_nodes.Expression) -> sds_types.Abstract
     elif isinstance(expr, mp_nodes.UnaryExpr):
         return mypy_expression_to_sds_type(expr.expr)
 
-    raise TypeError("Unexpected expression type.")  # pragma: no cover
+    # Expressions we cannot infer a type from (calls, operators, list displays, ...)
+    return sds_types.UnknownType()
 
 
 def mypy_expression_to_python_value(
